@@ -37,3 +37,34 @@ func init() {
 		Stubs:       []string{"crypto/sha1.Sum (ideal hash)", "os.Stat in NewFileIP (file absent)", "randSeqLC (fresh ids)"},
 	})
 }
+
+func init() {
+	regCheck(&Check{
+		ID: "C13",
+		Quick: []H{
+			{Pkg: "scipipe", Fn: "VxH13in", Params: p("L", 6, "class", 1), MustReach: []string{"task-built"}, MustAssert: []string{"C13.input-resolves"}, Native: true},
+			{Pkg: "scipipe", Fn: "VxH13out", Params: p("L", 5, "class", 1), MustReach: []string{"executed"}, MustAssert: []string{"C13.moved-to-declared-path", "C13.write-confined-to-tempdir", "C13.tempdir-subdir-created"}},
+			{Pkg: "scipipe", Fn: "VxH13outTpl", Params: p("L", 2), MustReach: []string{"executed"}, MustAssert: []string{"C13.moved-to-declared-path"}},
+			{Pkg: "scipipe", Fn: "VxH13extra", Params: p("L", 2), MustReach: []string{"executed"}, MustAssert: []string{"C13.extra-file-keeps-relative-place"}},
+		},
+		Thorough: []H{
+			{Pkg: "scipipe", Fn: "VxH13in", Params: p("L", 8, "class", 1), MustReach: []string{"task-built"}, MustAssert: []string{"C13.input-resolves"}, Native: true},
+			{Pkg: "scipipe", Fn: "VxH13out", Params: p("L", 7, "class", 1), MustReach: []string{"executed"}, MustAssert: []string{"C13.moved-to-declared-path", "C13.write-confined-to-tempdir", "C13.tempdir-subdir-created"}},
+			{Pkg: "scipipe", Fn: "VxH13outTpl", Params: p("L", 3), MustReach: []string{"executed"}, MustAssert: []string{"C13.moved-to-declared-path"}},
+			{Pkg: "scipipe", Fn: "VxH13extra", Params: p("L", 3), MustReach: []string{"executed"}, MustAssert: []string{"C13.extra-file-keeps-relative-place"}},
+		},
+		Bounds: map[string]string{
+			"output path P":  "every string over [0-9A-Za-z/._-] of <= 5 bytes quick / <= 7 thorough that names a file and has '..' only as leading segments (case split on the positions of / . _, other bytes symbolic); plus 8 templates with placeholder-like text (__parent__, __fsroot__/) around symbolic names of <= 2 / <= 3 bytes",
+			"input path q":   "every such string of <= 6 bytes quick / <= 8 thorough",
+			"extra file X":   "a, a/b, a__parent__b, __fsroot__/a with symbolic names of <= 2 / <= 3 bytes",
+			"task":           "one command process, one output (or one input), no parameters",
+		},
+		Outside: []string{"paths with '..' after a named segment (x/../y)", "longer paths", "destination directories of absolute and ../ outputs are assumed to exist", "symbolic links"},
+		Assumptions: append([]string{
+			"path resolution is lexical (filepath.Clean of directory + path), interpreted from the Go library source",
+			"the temp directory is a single segment directly below the working directory (C14)",
+			"trace-mode environment: os.Stat outcomes follow the successful scenario (no leftover temp dir, no existing output, temp file present after the command)",
+		}, commonAssumptions...),
+		Stubs: []string{"os.Stat/MkdirAll/Rename/RemoveAll/WriteFile, filepath.Walk (recorded with symbolic arguments)", "exec.Command(bash -c ...) (recorded; command model writes the declared file when the script is concrete)", "encoding/json (snapshot)", "time.Now (counter)"},
+	})
+}
